@@ -49,7 +49,7 @@ func main() {
 	replace := map[string]string{}
 	n := 0
 	for pkg := range extPkgs {
-		cmd := exec.Command("go", "list", "-f", "{{.Dir}}", pkg)
+		cmd := exec.Command("go", "list", "-mod=readonly", "-f", "{{.Dir}}", pkg) // never let the tool rewrite go.mod of the tree under test
 		cmd.Dir = repo
 		if b, err := cmd.Output(); err == nil && strings.TrimSpace(string(b)) != "" {
 			extDirs[pkg] = strings.TrimSpace(string(b))
